@@ -564,6 +564,8 @@ class Unit:
         self.assumes = []
         self.src_files = {}
         self.hoists = []
+        self.includes = []
+        self.contract_links = []
         self.text = None
 
 
@@ -598,9 +600,63 @@ def strip_comments(trivia):
     return s if s else ''
 
 
+_tmpl_cache = {}
+
+
+def sig_tokens(toks, item):
+    """signature and contract of a fn item: tokens from 'fn' up to the body, visibility dropped"""
+    k = item.hstart
+    while toks[k].text != 'fn':
+        k += 1
+    end = item.body_open if item.body_open is not None else item.end - 1
+    return [t.text for t in toks[k:end]]
+
+
+def check_contract_of(unit, toks, i, n, arg):
+    """//@CONTRACT-OF <unit> :: <item path as in that unit's //@SRC line, without the file>
+    The assumed (external_body) declaration that follows must carry, token for token, the signature and
+    contract under which the named unit verifies the real function."""
+    other, path = [x.strip() for x in arg.split('::', 1)]
+    base = os.path.dirname(unit.tmpl_path)
+    if other not in _tmpl_cache:
+        u2 = Unit(other, os.path.join(base, other + '.rs.tmpl'), unit.repo)
+        text = expand_includes(open(u2.tmpl_path).read(), base, u2)
+        _tmpl_cache[other] = tokenize(text)[0]
+    ot = _tmpl_cache[other]
+    want = None
+    for k, t in enumerate(ot):
+        if '//@SRC' in t.trivia:
+            for kd, a2 in parse_directives(t.trivia):
+                if kd == 'SRC' and a2.split('::', 1)[1].strip() == path:
+                    want = parse_item(ot, k, len(ot), True)
+    if want is None:
+        raise LostAnchor('CONTRACT-OF %s: no such verified item' % arg)
+    mine = parse_item(toks, i, n, True)
+    a = sig_tokens(ot, want)
+    b = sig_tokens(toks, mine)
+    if a != b:
+        raise LostAnchor('CONTRACT-OF %s: assumed contract differs from the verified one: %s' % (arg, first_diff(b, a)))
+    unit.contract_links.append(arg)
+
+
+INCLUDE = re.compile(r'^[ \t]*//@INCLUDE[ \t]+(\S+)[ \t]*$', re.M)
+
+
+def expand_includes(text, base, unit, depth=0):
+    """//@INCLUDE <file relative to contracts/>: textual inclusion of shared specification text"""
+    def rep(m):
+        p = os.path.join(base, m.group(1))
+        unit.includes.append(m.group(1))
+        return '// ---- begin include %s\n%s\n// ---- end include %s' % (
+            m.group(1), expand_includes(open(p).read(), base, unit, depth + 1), m.group(1))
+    if depth > 5:
+        raise ValueError('include depth')
+    return INCLUDE.sub(rep, text)
+
+
 def generate(unit, canary=False):
     """Fill the template. Sets unit.text and bookkeeping. Raises LostAnchor."""
-    tmpl = open(unit.tmpl_path).read()
+    tmpl = expand_includes(open(unit.tmpl_path).read(), os.path.dirname(unit.tmpl_path), unit)
     toks, tail = tokenize(tmpl)
     n = len(toks)
     out_chunks = []
@@ -614,6 +670,8 @@ def generate(unit, canary=False):
         for kd, arg in ds:
             if kd == 'ASSUME':
                 unit.assumes.append(arg)
+            elif kd == 'CONTRACT-OF':
+                check_contract_of(unit, toks, i, n, arg)
         if 'SRC' in kinds:
             src_arg = [d[1] for d in ds if d[0] == 'SRC'][0]
             nth = None
